@@ -82,7 +82,7 @@ Theorem C06_dead_code_never_creates :
   (match by_code (fst s) with None => true | Some r => c_rev r || c_act r || expired (fst s) end) = true ->
   mains (fst s) = [] ->
   (forall t, In t (snd s) -> (l_pc t = PGet \/ exists e, l_pc t = PDone (RErr e)) \/
-                             (l_kind t = KTick /\ forall m, l_pc t <> PDone (ROk m))) ->
+                             ((l_kind t = KTick \/ l_kind t = KList) /\ forall m, l_pc t <> PDone (ROk m))) ->
   let s' := run sh lo (tstep Current P) s sched in
   mains (fst s') = [] /\ forall t m, In t (snd s') -> l_pc t <> PDone (ROk m).
 Proof. exact dead_code_never_creates. Qed.
@@ -104,6 +104,44 @@ Theorem C06_returned_mapping_is_callers :
     In {| m_id := m; m_listen := l; m_laddr := la; m_target := p_tgt P; m_taddr := p_taddr P |} (mains (fst s')).
 Proof. intros P s sched H1 H2 H3. exact (returned_mapping_is_callers P s sched (conj H1 (conj H2 H3))). Qed.
 Print Assumptions C06_returned_mapping_is_callers.
+
+(* read paths with side effects: ListConnectionCodesByTargetClient (repo.ListByTargetClient + the asynchronous clean-up,
+   connCodeRepo.Delete, which also releases the claim marker) is a caller kind of its own (KList), so every theorem above
+   and below already quantifies over listings interleaved anywhere.  In addition: while the activation period lasts — the
+   only time the code can still be activated and a claim can guard a decision in flight — no step of a listing, at
+   whatever point of its call or clean-up, touches the code records, the claim marker or the mappings (the clean-up
+   only ever runs once the period is over). *)
+Theorem C06_listing_harmless_while_valid :
+  forall (P : params) (s : st sh lo) (sched : list nat),
+  mains (fst s) = [] ->
+  (forall t, In t (snd s) -> l_pc t = PGet \/ exists e, l_pc t = PDone (RErr e)) ->
+  (forall i j ti tj, nth_error (snd s) i = Some ti -> nth_error (snd s) j = Some tj -> l_me ti = l_me tj -> i = j) ->
+  let s' := run sh lo (tstep Current P) s sched in
+  expired (fst s') = false ->
+  forall t, In t (snd s') -> l_kind t = KList ->
+    by_code (snd (tstep Current P t (fst s'))) = by_code (fst s') /\
+    by_id (snd (tstep Current P t (fst s'))) = by_id (fst s') /\
+    claim (snd (tstep Current P t (fst s'))) = claim (fst s') /\
+    mains (snd (tstep Current P t (fst s'))) = mains (fst s').
+Proof. intros P s sched H1 H2 H3. exact (listing_harmless_while_valid P s sched (conj H1 (conj H2 H3))). Qed.
+Print Assumptions C06_listing_harmless_while_valid.
+
+(* activator reads the code and pauses before its claim; the owner revokes, then lists; the activator goes on.
+   Repaired code: the revoked code is listed, not purged, the claim stays, the activator is turned away.  A listing
+   that also purges REVOKED codes (PurgeRevoked variant) releases the claim: the revoked code creates a mapping. *)
+Theorem C06_repaired_list_after_revoke_keeps_claim :
+  let s := run sh lo (tstep Current P0) (s0 act_rev_list) purge_schedule in
+  finished (snd s) = true /\ oks (snd s) = 0 /\ mains (fst s) = [] /\ claim (fst s) = true /\
+  by_code (fst s) = Some {| c_act := false; c_rev := true; c_by := 0; c_map := 0 |}.
+Proof. exact current_list_after_revoke_keeps_claim. Qed.
+Print Assumptions C06_repaired_list_after_revoke_keeps_claim.
+
+Theorem C06_purge_revoked_refuted :
+  let s := run sh lo (tstep PurgeRevoked P0) (s0 act_rev_list) purge_schedule in
+  finished (snd s) = true /\ oks (snd s) = 1 /\ length (mains (fst s)) = 1 /\
+  (exists t, In t (snd s) /\ l_kind t = KRev /\ l_pc t = PDone RRevoked).
+Proof. exact purge_revoked_refuted. Qed.
+Print Assumptions C06_purge_revoked_refuted.
 
 (* revocation against activation, every schedule (faults and expiry included): a revocation that wrote the revoked
    record and an activation never both succeed.  (RGone — RevokeConnectionCode returning nil because the code had
